@@ -27,6 +27,28 @@ claim(
     "DESIGN.md section 3, C19",
 )
 
+claim(
+    "C08", "exploration",
+    "bounded exhaustive enumeration of operand pairs / tuples + Hypothesis gap-encoded arrays, Python set-algebra oracle",
+    "Every ordered pair of subsets of three 7-value (quick) / 10-value (thorough) universes, including both ends of "
+    "the uint32 range, is run through all three kernels and compared with Python set algebra; multi-way unions are "
+    "enumerated over all 3- and 4-tuples of subsets; Hypothesis adds long arrays with explicit overlap patterns, memory "
+    "layouts, None operands and copy flags. Small-scope complete, unbounded in general: exploration.",
+    "Python's set type is the reference; the kernels are rebuilt from the working tree's .pyx for every run.",
+    "DESIGN.md section 3, C08",
+)
+claim(
+    "C09", "exploration",
+    "the C08 input enumeration executed under two observers: bounds-checked Cython rebuild (in-process IndexError) and clang AddressSanitizer build (child process)",
+    "Out-of-range accesses depend on which operand runs out first, so the deciding step is the generated / enumerated "
+    "input search of C08 (every exhaustion position for up to 7 (quick) / 10 (thorough) elements per side); the bounds-checked "
+    "rebuild turns any out-of-range memoryview index into an exception, the ASan build of the unmodified source guards "
+    "against the transform hiding something.",
+    "Bounds build = text transform of boundscheck(False) directives; ASan detects overruns within its redzones; "
+    "raw-pointer arithmetic added by a change would only be seen by ASan.",
+    "DESIGN.md section 3, C09",
+)
+
 NOT_YET = "check not built yet in this session (work in progress; see DESIGN.md section 9 build order)"
 
 ALL = ["C%02d" % i for i in range(1, 21)]
